@@ -319,7 +319,8 @@ structure InvOpen (T : List Tx) (fs : FS) (m : Mem) (cs : List CTx) (c : Nat) : 
   pager : PagerOK (allNodes T) c fs.pd
   store : StoreOK T cs fs.pd
   full : fs.pd.hdr.i2eLen = (allNodes T).length
-  mpm : m.pm = fs.pd.hdr
+  mpm : SameKey fs.pd.hdr m.pm
+  mbm : fs.pd.bm ≤ m.bm
   mlen : m.idLen = (allNodes T).length
   mstart : m.idStart = fs.pd.hdr.i2eStart
   mexts : m.exts = allNodes T
@@ -475,27 +476,28 @@ theorem commit_safe {cfg : Cfg} {T : List Tx} {fs : FS} {m : Mem} {cs : List CTx
       rw [h.pager.slots i (by rw [h.full]; exact hi), allNodes_snoc, getSlot_append_left _ _ _ hi]
   have hpm : OKhdr c' fs.pd (allNodes T).length (m.ps fs.pv).pm := by
     show OKhdr c' fs.pd (allNodes T).length m.pm
-    rw [h.mpm]
-    exact ⟨rfl, rfl, h.pager.start, by rw [h.full]; exact hcN, by rw [h.full]; exact Nat.le_refl _, Nat.le_refl _⟩
+    exact (⟨rfl, rfl, h.pager.start, by rw [h.full]; exact hcN, by rw [h.full]; exact Nat.le_refl _, Nat.le_refl _⟩ :
+      OKhdr c' fs.pd (allNodes T).length fs.pd.hdr).sameKey h.mpm
   have hcomF : committed (readAll (fs1.step .ws).wf) = .ok cs' := by rw [hwf2]; exact hcom'
   have hdropF : (allNodes (T ++ [tx])).drop (allNodes T).length = tx.nodes ++ [] := by
     rw [allNodes_snoc]; simp
-  have hSy : SyncedI (fs1.step .ws) (m.ps fs.pv).pm := ⟨by rw [hpj2]; exact h.pj, by rw [hpd2]; exact h.mpm.symm⟩
+  have hSy : SyncedI (fs1.step .ws) (m.ps fs.pv) := ⟨by rw [hpj2]; exact h.pj, by rw [hpd2]; exact h.mpm, by rw [hpd2]; exact h.mbm⟩
   have hl1 : (m.ps fs.pv).pm.i2eLen = (allNodes T).length := by
     show m.pm.i2eLen = _
-    rw [h.mpm, h.full]
+    rw [h.mpm.len, h.full]
   have hl2 : ({ start := m.idStart, len := m.idLen } : IdSt).start = (m.ps fs.pv).pm.i2eStart := by
     show m.idStart = m.pm.i2eStart
-    rw [h.mstart, h.mpm]
+    rw [h.mstart, h.mpm.start]
   have hl3 : 1 ≤ (m.ps fs.pv).pm.nextPage := by
     show 1 ≤ m.pm.nextPage
-    rw [h.mpm]
     have := h.pager.booted.nextPage
+    have := h.mpm.np
     omega
   have hl4 : (allNodes T).length ≤ (allNodes (T ++ [tx])).length := by rw [allNodes_snoc]; simp
   have sa3 := node_phase (cfg := cfg) (T := T ++ [tx]) (cs := cs') (c := c') (k := (allNodes T).length)
     h.pager.booted hsync (fs1.step .ws) (m.ps fs.pv) { start := m.idStart, len := m.idLen } tx.nodes []
     hq2 hcomF hlog' hstore' hdropF hB hSy hpm hl1 h.mlen hl2 hl3 hcN hl4
+    h.mbm
   -- assemble
   have hmono : ∀ g, SafeFS [T ++ [tx]] g → SafeFS [T, T ++ [tx]] g := fun g hg => safeFS_mono hg (by simp)
   have hmono0 : ∀ g, SafeFS [T] g → SafeFS [T, T ++ [tx]] g := fun g hg => safeFS_mono hg (by simp)
